@@ -2,7 +2,9 @@
 dict[str, ·] / plain dataclasses (arbitrary nesting): definitions (`toJ`, `PlainCls`, `Conf`) and the induction behind
 `C01_roundtrip_struct`. -/
 import DW.Model.Load
+import DW.Model.StdLaws
 import DW.Lemmas.Dump
+import DW.Lemmas.Strings
 namespace DW.RT
 open DW
 
@@ -47,25 +49,28 @@ structure PlainCls (ci : ClassInfo) (ftys : List (S × Ty)) : Prop where
 
 /-- types whose dump is never JSON null -/
 def nonNullTy : Ty → Bool
-  | .int => true | .str => true | .bool => true
+  | .int => true | .str => true | .bool => true | .float => true
+  | .leaf _ => true
   | .seq .list _ => true
   | .map .dict .str _ => true
   | .cls _ _ => true
   | _ => false
 
 /-- value `v` conforms to type `t`, for the fragment: int, str, bool, Optional, list, dict[str, ·], plain dataclasses -/
-inductive Conf : Ty → PyVal → Prop
-  | int (i : Int) : Conf .int (.int i)
-  | str (s : S) : Conf .str (.str s)
-  | bool (b : Bool) : Conf .bool (.bool b)
-  | optNone (t : Ty) : Conf (.optional t) .none
-  | optSome (t : Ty) (v : PyVal) : nonNullTy t = true → Conf t v → Conf (.optional t) v
-  | list (t : Ty) (xs : List PyVal) : (∀ x ∈ xs, Conf t x) → Conf (.seq .list t) (.seq .list xs)
-  | dict (t : Ty) (kvs : List (S × PyVal)) : (kvs.map (·.1)).Nodup → (∀ p ∈ kvs, Conf t p.2) →
-      Conf (.map .dict .str t) (.map .dict (kvs.map (fun p => (.str p.1, p.2))))
+inductive Conf (std : Std) : Ty → PyVal → Prop
+  | int (i : Int) : Conf std .int (.int i)
+  | float (f : PyFloat) : Conf std .float (.float f)
+  | leaf (k : LeafKind) (t : S) : std.validTok k t = true → Conf std (.leaf k) (.leaf k false t)
+  | str (s : S) : Conf std .str (.str s)
+  | bool (b : Bool) : Conf std .bool (.bool b)
+  | optNone (t : Ty) : Conf std (.optional t) .none
+  | optSome (t : Ty) (v : PyVal) : nonNullTy t = true → Conf std t v → Conf std (.optional t) v
+  | list (t : Ty) (xs : List PyVal) : (∀ x ∈ xs, Conf std t x) → Conf std (.seq .list t) (.seq .list xs)
+  | dict (t : Ty) (kvs : List (S × PyVal)) : (kvs.map (·.1)).Nodup → (∀ p ∈ kvs, Conf std t p.2) →
+      Conf std (.map .dict .str t) (.map .dict (kvs.map (fun p => (.str p.1, p.2))))
   | inst (ci : ClassInfo) (ftys : List (S × Ty)) (vals : List PyVal) : PlainCls ci ftys → vals.length = ftys.length →
-      (∀ p ∈ ftys.zip vals, Conf p.1.2 p.2) →
-      Conf (.cls ci ftys) (.inst ci ((ftys.map (·.1)).zip vals))
+      (∀ p ∈ ftys.zip vals, Conf std p.1.2 p.2) →
+      Conf std (.cls ci ftys) (.inst ci ((ftys.map (·.1)).zip vals))
 
 
 /-- the round-trip statement for one value -/
@@ -216,10 +221,43 @@ theorem rt_dict (std : Std) (t : Ty) (kvs : List (S × PyVal)) (hnd : (kvs.map (
     simp only [List.map_nil, List.nil_append] at hfold
     rw [hfold]
 
-theorem dump_nonnull (std : Std) (t : Ty) (v : PyVal) (hc : Conf t v) (hn : nonNullTy t = true) (d : DVal)
+theorem dump_float (std : Std) (f : PyFloat) : dumpV std false none (.float f) = .ok (.float f) := by
+  simp [dumpV, dumpScalar, pure, Except.pure]
+theorem rt_float (std : Std) (f : PyFloat) : RT std .float (.float f) := by
+  intro d h; rw [dump_float] at h; cases h; simp [toJ, loadD, asFloat, pure, Except.pure]
+
+/-- what the dump writes for a leaf value (ISO mode): the token, with a trailing `+00:00` as `Z` for time / datetime -/
+def leafText (k : LeafKind) (t : S) : S :=
+  match k with
+  | .time => isoZ t
+  | .datetime => isoZ t
+  | _ => t
+
+theorem dump_leaf (std : Std) (k : LeafKind) (t : S) : dumpV std false none (.leaf k false t) = .ok (.str (leafText k t)) := by
+  cases k <;> simp [dumpV, dumpScalar, leafText, pure, Except.pure]
+
+theorem rt_leaf (std : Std) (laws : StdLaws std) (k : LeafKind) (t : S) (ht : std.validTok k t = true) :
+    RT std (.leaf k) (.leaf k false t) := by
+  intro d h
+  rw [dump_leaf] at h; cases h
+  cases k
+  · simp only [toJ, leafText, loadD, asDecimal, strOfJ]; rw [laws.decimal_rt t ht]; rfl
+  · simp only [toJ, leafText, loadD, asPath, strOfJ]; rw [laws.path_rt t ht]; rfl
+  · simp only [toJ, leafText, loadD, asUuid]; rw [laws.uuid_rt t ht]; rfl
+  · simp only [toJ, leafText, loadD, asDate]; rw [laws.date_rt t ht]; rfl
+  · simp only [toJ, leafText, loadD, asTime]
+    have hz : zToOffset (isoZ t) = t := zToOffset_isoZ t (laws.time_noZ t ht)
+    rw [hz, laws.time_rt t ht]; rfl
+  · simp only [toJ, leafText, loadD, asDatetime]
+    have hz : zToOffset (isoZ t) = t := zToOffset_isoZ t (laws.datetime_noZ t ht)
+    rw [hz, laws.datetime_rt t ht]; rfl
+
+theorem dump_nonnull (std : Std) (t : Ty) (v : PyVal) (hc : Conf std t v) (hn : nonNullTy t = true) (d : DVal)
     (h : dumpV std false none v = .ok d) : toJ d ≠ .null := by
   cases hc with
   | int i => rw [dump_int] at h; cases h; simp [toJ]
+  | float f => rw [dump_float] at h; cases h; simp [toJ]
+  | leaf k t _ => rw [dump_leaf] at h; cases h; simp [toJ]
   | str s => rw [dump_str] at h; cases h; simp [toJ]
   | bool b => rw [dump_bool] at h; cases h; simp [toJ]
   | optNone t => simp [nonNullTy] at hn
@@ -242,7 +280,7 @@ theorem dump_nonnull (std : Std) (t : Ty) (v : PyVal) (hc : Conf t v) (hn : nonN
       unfold finishInst
       split <;> simp [toJ]
 
-theorem rt_optSome (std : Std) (t : Ty) (v : PyVal) (hn : nonNullTy t = true) (hc : Conf t v) (ih : RT std t v) :
+theorem rt_optSome (std : Std) (t : Ty) (v : PyVal) (hn : nonNullTy t = true) (hc : Conf std t v) (ih : RT std t v) :
     RT std (.optional t) v := by
   intro d h
   rw [loadD_optional_nonnull std t (toJ d) (dump_nonnull std t v hc hn d h)]
@@ -440,9 +478,11 @@ theorem rt_inst (std : Std) (ci : ClassInfo) (ftys : List (S × Ty)) (vals : Lis
     rw [hl]
 
 /-- **structural round trip** over the fragment -/
-theorem roundtrip (std : Std) (t : Ty) (v : PyVal) (hc : Conf t v) : RT std t v := by
+theorem roundtrip (std : Std) (laws : StdLaws std) (t : Ty) (v : PyVal) (hc : Conf std t v) : RT std t v := by
   induction hc with
   | int i => exact rt_int std i
+  | float f => exact rt_float std f
+  | leaf k t ht => exact rt_leaf std laws k t ht
   | str s => exact rt_str std s
   | bool b => exact rt_bool std b
   | optNone t => exact rt_optNone std t
@@ -452,11 +492,11 @@ theorem roundtrip (std : Std) (t : Ty) (v : PyVal) (hc : Conf t v) : RT std t v 
   | inst ci ftys vals hp hlen _ ih => exact rt_inst std ci ftys vals hp hlen ih
 
 
-theorem roundtrip_root (std : Std) (ci : ClassInfo) (ftys : List (S × Ty)) (v : PyVal) (hc : Conf (.cls ci ftys) v)
+theorem roundtrip_root (std : Std) (laws : StdLaws std) (ci : ClassInfo) (ftys : List (S × Ty)) (v : PyVal) (hc : Conf std (.cls ci ftys) v)
     (d : DVal) (h : asdict std {} v = .ok d) : fromdict std (.cls ci ftys) (toJ d) = .ok v := by
   cases hc with
   | inst _ _ vals hp hlen hall =>
-    have hrt := roundtrip std (.cls ci ftys) _ (Conf.inst ci ftys vals hp hlen hall) d (by
+    have hrt := roundtrip std laws (.cls ci ftys) _ (Conf.inst ci ftys vals hp hlen hall) d (by
       rw [dumpV]; simpa [asdict, hp.noMeta, rootConfig] using h)
     rw [loadD] at hrt
     simp only [fromdict, hp.noMeta, rootConfig]
